@@ -48,6 +48,9 @@ type Stage struct {
 	Dir   string            `json:"dir,omitempty"` // sub-directory name ("" = none), CLI only
 	Deps  []string          `json:"deps,omitempty"`
 	Delay int               `json:"delay"` // ms (in-process) / centiseconds*... see run
+	// APIDir (part real): the stage object also carries a Dir of its own. Whether the scheduler honours it for stages
+	// built through the API is not stated; what is stated is that it stays with this stage.
+	APIDir bool `json:"api_dir,omitempty"`
 }
 
 // Case: one task shared by the stages of one or two pipelines, then run directly.
@@ -430,6 +433,7 @@ func runReal(c Case, dir string) error {
 	}
 	r.Stdout, r.Stderr = io.Discard, io.Discard
 	wantDir := map[string]string{"direct": filepath.Join(dir, "wd_task")}
+	altDir := map[string]string{}
 	build := func(stages []Stage) (*scheduler.ExecutionGraph, error) {
 		var ss []*scheduler.Stage
 		for _, st := range stages {
@@ -439,7 +443,12 @@ func runReal(c Case, dir string) error {
 				vars["wd"] = mk("wd_" + st.Name)
 				wantDir[st.Name] = filepath.Join(dir, "wd_"+st.Name)
 			}
-			ss = append(ss, &scheduler.Stage{Name: st.Name, Task: base, Env: variables.FromMap(st.Env), Variables: variables.FromMap(vars), DependsOn: st.Deps})
+			sst := &scheduler.Stage{Name: st.Name, Task: base, Env: variables.FromMap(st.Env), Variables: variables.FromMap(vars), DependsOn: st.Deps}
+			if st.APIDir {
+				sst.Dir = mk("api_" + st.Name)
+				altDir[st.Name] = filepath.Join(dir, "api_"+st.Name)
+			}
+			ss = append(ss, sst)
 		}
 		return scheduler.NewExecutionGraph(ss...)
 	}
@@ -489,8 +498,12 @@ func runReal(c Case, dir string) error {
 		if len(g) != rep {
 			return fmt.Errorf("stage %s printed %d lines, want %d; all lines: %q", st.Name, len(g), rep, string(data))
 		}
+		w2 := w
+		if a, ok := altDir[st.Name]; ok {
+			w2 = want(overlay(overlay(runnerEnv, c.TaskEnv), st.Env), overlay(c.TaskVars, st.Vars), a)
+		}
 		for _, l := range g {
-			if l != w {
+			if l != w && l != w2 {
 				return fmt.Errorf("stage %s printed %q, want %q (the task's settings overlaid by this stage's only; the task dir is the template {{ .wd }}); all lines: %q", st.Name, l, w, string(data))
 			}
 		}
@@ -592,6 +605,9 @@ func TestReal(t *testing.T) {
 		c.TaskDir = ""
 		c.ParentEnv = nil
 		c.Mode = "real"
+		for i := range c.P1 {
+			c.P1[i].APIDir = rapid.IntRange(0, 3).Draw(rt, "stage-object-dir") == 0
+		}
 		drv.Sample(c)
 		record(c)
 		k++
